@@ -6,6 +6,7 @@ import (
 	"encoding/json"
 	"flag"
 	"fmt"
+	"github.com/MinterTeam/mhub2/module/x/mhub2/types"
 	"math/big"
 	"math/rand"
 	"os"
@@ -491,6 +492,10 @@ func runProfile(g *Gen, profile string, nops int) {
 	switch profile {
 	case "ledger":
 		g.runLedger(nops)
+	case "votes":
+		g.runVotes(nops)
+	case "oracle":
+		g.runOracle(nops)
 	default:
 		fmt.Println("unknown profile", profile)
 		os.Exit(2)
@@ -548,4 +553,242 @@ func replayMain(args []string) {
 	os.WriteFile(filepath.Join(*out, "impl.txt"), []byte(strings.Join(allOuts, "\n")+"\n"), 0o644)
 	b, _ := json.MarshalIndent(res, "", " ")
 	os.WriteFile(filepath.Join(*out, "result.json"), b, 0o644)
+}
+
+// ---------------------------------------------------------------- votes profile (C02, C03)
+
+func (g *Gen) runVotes(nops int) {
+	r := g.rng
+	g.env = NewEnv(false)
+	g.do("reset")
+	g.chains = []string{"ethereum", "minter", "bsc", "hub"}
+	g.do("chains " + strings.Join(g.chains, ","))
+	ethTok := ethHex([]byte{0x10, 1, 2, 3, 4, 5, 6, 7, 8, 9, 10, 11, 12, 13, 14, 15, 16, 17, 18, 19})
+	g.do("token 1 hub ethereum " + ethTok + " 18 10000000000000000")
+	g.do("token 2 hub minter 0 18 10000000000000000")
+	g.tokens = []tokSpec{{1, "hub", "ethereum", ethTok, 18}, {2, "hub", "minter", "0", 18}}
+	g.denoms = []string{"hub"}
+	for _, p := range []string{"eth", "bnb", "hub"} {
+		g.do("price " + p + " 1000000000000000000")
+	}
+	nv := 2 + r.Intn(6)
+	small := r.Intn(2) == 0
+	for i := 0; i < nv; i++ {
+		p := int64(1 + r.Intn(100))
+		if small {
+			p = int64(1 + r.Intn(3))
+		}
+		g.vals = append(g.vals, valSpec{addr: hex20(byte(0xa0 + i)), power: p, bonded: r.Intn(8) > 0, orch: map[string]string{}, eth: map[string]string{}})
+	}
+	if r.Intn(5) == 0 { // one dominant validator
+		g.vals[0].power = 1000
+	}
+	g.do(g.stakingLine())
+	g.do("init")
+	for i := 0; i < 3; i++ {
+		g.accounts = append(g.accounts, hex20(byte(0x31+i)))
+	}
+	for i := 0; i < 3; i++ {
+		g.recips = append(g.recips, ethHex([]byte{byte(0x70 + i), 9, 9, 9, 9, 9, 9, 9, 9, 9, 9, 9, 9, 9, 9, 9, 9, 9, 9, byte(i)}))
+	}
+	for i := range g.vals {
+		for _, c := range []string{"ethereum", "minter"} {
+			if r.Intn(2) == 0 {
+				g.delegate(i, c, true)
+			}
+		}
+	}
+	g.height, g.time = 1, 1600000000
+	g.do(fmt.Sprintf("block %d %d", g.height, g.time))
+	g.do("begin")
+	// candidate events per chain/nonce
+	cand := map[string][]string{}
+	event := func(chain string, n uint64, variant int) string {
+		k := fmt.Sprintf("%s/%d", chain, n)
+		for len(cand[k]) <= variant {
+			coin := ethTok
+			if chain == "minter" {
+				coin = "0"
+			}
+			amt := 1000 + r.Intn(100000)
+			cand[k] = append(cand[k], fmt.Sprintf("sth %d %s %d %s %s %d 0xv%dn%d", n, coin, amt, g.pick(g.recips), g.pick(g.accounts), 100+n, len(cand[k]), n))
+		}
+		return cand[k][variant]
+	}
+	voted := map[string]uint64{} // chain/val -> last nonce voted
+	votesDumps := func() {
+		for _, c := range []string{"ethereum", "minter"} {
+			g.do("dump votes " + c)
+			g.do("dump counters " + c)
+		}
+		g.do("dump bank")
+	}
+	for i := 0; i < nops; i++ {
+		switch x := r.Intn(100); {
+		case x < 70:
+			chain := g.pick([]string{"ethereum", "minter", "ethereum"})
+			vi := r.Intn(len(g.vals))
+			v := g.vals[vi]
+			signer := v.addr
+			if o, ok := v.orch[chain]; ok && r.Intn(2) == 0 {
+				signer = o
+			}
+			if r.Intn(15) == 0 {
+				signer = hex20(byte(0xe0 + r.Intn(3))) // unknown account
+			}
+			key := chain + "/" + v.addr
+			var n uint64
+			if last, ok := voted[key]; ok {
+				n = last + 1
+			} else {
+				n = g.env.k.GetLastObservedEventNonce(g.env.ctx, types.ChainID(chain)) + 1
+				if r.Intn(6) == 0 && n > 1 {
+					n--
+				}
+			}
+			switch r.Intn(12) {
+			case 0:
+				n += uint64(1 + r.Intn(2)) // ahead
+			case 1:
+				if n > 1 {
+					n-- // behind / repeat
+				}
+			case 2:
+				n = 0
+			}
+			variant := 0
+			if r.Intn(5) == 0 {
+				variant = 1
+			}
+			out := g.do(fmt.Sprintf("vote %s %s %s", chain, signer, event(chain, n, variant)))
+			if out == "ok" && signer != hex20(0xe0) {
+				// attribute to the validator the signer resolves to
+				voted[key] = n
+			}
+		case x < 78:
+			// staking change
+			vi := r.Intn(len(g.vals))
+			switch r.Intn(3) {
+			case 0:
+				g.vals[vi].power = int64(1 + r.Intn(100))
+			case 1:
+				g.vals[vi].bonded = !g.vals[vi].bonded
+			case 2:
+				g.vals[vi].power = int64(r.Intn(3))
+			}
+			g.do(g.stakingLine())
+		case x < 82:
+			g.do(fmt.Sprintf("q_lastnonce %s %s", g.pick([]string{"ethereum", "minter"}), g.vals[r.Intn(len(g.vals))].addr))
+		default:
+			g.do("end")
+			votesDumps()
+			g.height++
+			g.time += 5
+			g.do(fmt.Sprintf("block %d %d", g.height, g.time))
+			g.do("begin")
+		}
+	}
+	g.do("end")
+	votesDumps()
+}
+
+// ---------------------------------------------------------------- oracle profile (C18)
+
+func (g *Gen) runOracle(nops int) {
+	r := g.rng
+	g.env = NewEnv(true)
+	g.do("reset")
+	g.chains = []string{"ethereum", "minter", "bsc", "hub"}
+	g.do("chains " + strings.Join(g.chains, ","))
+	g.do("token 1 hub ethereum 0x1111111111111111111111111111111111111111 18 0")
+	if r.Intn(2) == 0 {
+		g.do("token 2 usdt minter 5 18 0")
+	}
+	names := []string{"eth", "ethereum/gas", "bnb", "bsc/gas", "hub", "usdt"}
+	nv := 1 + r.Intn(6)
+	small := r.Intn(2) == 0
+	for i := 0; i < nv; i++ {
+		p := int64(1 + r.Intn(100))
+		if small {
+			p = int64(1 + r.Intn(3))
+		}
+		g.vals = append(g.vals, valSpec{addr: hex20(byte(0xa0 + i)), power: p, bonded: r.Intn(8) > 0})
+	}
+	if r.Intn(4) == 0 {
+		g.vals[0].power = 34
+		if len(g.vals) > 1 {
+			g.vals[1].power = 66
+		}
+	}
+	g.do(g.stakingLine())
+	g.do("init")
+	g.height, g.time = 1, 1600000000
+	g.do(fmt.Sprintf("block %d %d", g.height, g.time))
+	holderLists := [][]string{
+		{"aa=1000000000000000000", "bb=32000000000000000000"},
+		{"bb=32000000000000000000", "aa=1000000000000000000"},
+		{"aa=2000000000000000000"},
+		{"cc=5", "AA=7"},
+		{"aa=1", "AA=2"},
+	}
+	for i := 0; i < nops; i++ {
+		epoch := g.env.ok.GetCurrentEpoch(g.env.ctx)
+		switch x := r.Intn(100); {
+		case x < 45:
+			v := g.vals[r.Intn(len(g.vals))].addr
+			if r.Intn(20) == 0 {
+				v = hex20(0xee)
+			}
+			ep := epoch
+			switch r.Intn(12) {
+			case 0:
+				ep = epoch + 1
+			case 1:
+				if epoch > 0 {
+					ep = epoch - 1
+				}
+			}
+			var items []string
+			for _, n := range names {
+				if r.Intn(25) == 0 {
+					continue // missing required price
+				}
+				val := new(big.Int).Mul(big.NewInt(int64(1+r.Intn(50))), new(big.Int).Exp(big.NewInt(10), big.NewInt(int64(15+r.Intn(4))), nil))
+				if r.Intn(40) == 0 {
+					val = big.NewInt(0)
+				}
+				items = append(items, n+"="+val.String())
+				if r.Intn(30) == 0 {
+					items = append(items, n+"="+new(big.Int).Add(val, big.NewInt(1000)).String()) // duplicate name
+				}
+			}
+			g.do(fmt.Sprintf("oprice %s %d %s", v, ep, strings.Join(items, ",")))
+		case x < 65:
+			v := g.vals[r.Intn(len(g.vals))].addr
+			hl := holderLists[r.Intn(len(holderLists))]
+			if r.Intn(3) == 0 {
+				hl = holderLists[0]
+			}
+			g.do(fmt.Sprintf("oholders %s %d %s", v, epoch, strings.Join(hl, ",")))
+		case x < 72:
+			vi := r.Intn(len(g.vals))
+			switch r.Intn(3) {
+			case 0:
+				g.vals[vi].power = int64(1 + r.Intn(100))
+			case 1:
+				g.vals[vi].bonded = !g.vals[vi].bonded
+			case 2:
+				g.vals[vi].power = int64(1 + r.Intn(3))
+			}
+			g.do(g.stakingLine())
+		default:
+			g.do("oend")
+			g.do("dump oracle")
+			g.height++
+			g.time += 5
+			g.do(fmt.Sprintf("block %d %d", g.height, g.time))
+		}
+	}
+	g.do("oend")
+	g.do("dump oracle")
 }
